@@ -109,8 +109,14 @@ def info_on_damaged(run):
             n += 1
             try:
                 got = FlatJsonRenderer().render(Decoder().process(dm, info_only=True))
+                # ... and with expected values not enforced as well: the two options together are still a metadata-only decode
+                got2 = FlatJsonRenderer().render(Decoder().process(dm, info_only=True, ignore_value_expectation=True))
             except Exception as e:
                 run.violation(('info-only', 'reads-data', type(e).__name__, what), '%s: metadata-only decode of a message with %s raised %r' % (name, what, e),
+                              {'kind': 'info', 'name': name, 'what': what})
+                continue
+            if json.dumps(got2, default=repr) != json.dumps(got, default=repr):
+                run.violation(('info-only', 'differs', 'with-ive', what), '%s: metadata-only decode changes when expected values are not enforced' % name,
                               {'kind': 'info', 'name': name, 'what': what})
                 continue
             if json.dumps(got, default=repr) != json.dumps(ref, default=repr):
